@@ -11,6 +11,7 @@ import (
 	"path/filepath"
 	"sort"
 	"strings"
+	"sync"
 
 	"golang.org/x/mod/sumdb/dirhash"
 	modzip "golang.org/x/mod/zip"
@@ -70,6 +71,9 @@ type c19Opener struct {
 	opened   []string
 	fired    map[string]int
 	unclosed int
+	// mu guards the bookkeeping: nothing says that Hash1 reads the files one at a time or on the
+	// calling goroutine
+	mu sync.Mutex
 }
 
 type c19Reader struct {
@@ -82,7 +86,9 @@ type c19Reader struct {
 
 func (r *c19Reader) Read(p []byte) (int, error) {
 	if r.failAt >= 0 && r.off >= r.failAt {
+		r.o.mu.Lock()
 		r.o.fired["read-error"]++
+		r.o.mu.Unlock()
 		return 0, c19Errs[r.o.errKind%len(c19Errs)]
 	}
 	if r.off >= len(r.data) {
@@ -102,9 +108,16 @@ func (r *c19Reader) Read(p []byte) (int, error) {
 	r.off += n
 	return n, nil
 }
-func (r *c19Reader) Close() error { r.o.unclosed--; return nil }
+func (r *c19Reader) Close() error {
+	r.o.mu.Lock()
+	r.o.unclosed--
+	r.o.mu.Unlock()
+	return nil
+}
 
 func (o *c19Opener) open(name string) (io.ReadCloser, error) {
+	o.mu.Lock()
+	defer o.mu.Unlock()
 	o.opened = append(o.opened, name)
 	if o.openErr[name] {
 		o.fired["open-error"]++
